@@ -17,6 +17,7 @@ cut into frames and checked against the clauses of the property:
   plain     no control characters and every frame on a line of its own
   quiet     nothing is written
 """
+import itertools
 import os
 import re
 
@@ -496,6 +497,64 @@ def bounded(ctx):
                     fails.add("section-" + prob.sig, prob.what, {"multiline": True, "section": True, "seq": seq})
         ctx.done(exhaustive=True, note=fails.note())
 
+        # ---- 7. two bars on two sections, the lower one with frames exactly as wide as the terminal
+        ctx.check("two_sections_exact_width", "two bars on two sections below a header section, terminal 30 columns, the lower bar's frame "
+                                              "exactly 30 columns wide: all advance sequences up to length 4 over {upper, lower}; the "
+                                              "screen shows the header and the latest frame of either bar, each on its own row")
+        fails = _Failures(ctx)
+        for L in (1, 2, 3, 4):
+            for combo in itertools.product("ab", repeat=L):
+                prob = run_two_sections(list(combo), clock)
+                ctx.case(list(combo), nontrivial=len(set(combo)) > 1, sample="".join(combo))
+                if prob is not None:
+                    fails.add(prob.sig, prob.what, {"two_sections": True, "seq": list(combo)})
+        ctx.done(exhaustive=True, note=fails.note())
+
+
+def run_two_sections(seq, clock, width=30):
+    """two bars on two sections of one ANSI output below a header section; the lower bar draws frames EXACTLY as wide as the
+    terminal (one terminal row each); seq: list of 'a' / 'b' (advance the upper / the lower bar); after every call the
+    screen shows the header, the latest frame of the upper bar and the latest frame of the lower bar"""
+    from clikit.io import BufferedIO
+    from clikit.ui.components import ProgressBar
+
+    clock.ms = 0
+    old = os.environ.get("COLUMNS")
+    os.environ["COLUMNS"] = str(width)
+    try:
+        io = BufferedIO(formatter=_formatter(True))
+        head = io.section()
+        head.error_output.write_line("HEADER")
+        sa, sb = io.section(), io.section()
+        a = ProgressBar(sa, 10, 0)
+        a.set_bar_width(5)
+        a.set_format("%current%/%max% [%bar%]")
+        b = ProgressBar(sb, 10, 0)
+        b.set_bar_width(width - 3)
+        b.set_format("%current:2s% %bar%")  # 2 + 1 + (width - 3) = width columns
+        try:
+            a.start()
+            b.start()
+            for who in seq:
+                (a if who == "a" else b).advance(1)
+                rows = Term(width).feed(io.fetch_error()).rows()
+                fa = "%2d/10 [" % a.get_progress()
+                fb = "%2d " % b.get_progress()
+                ok = (len(rows) == 3 and rows[0] == "HEADER" and rows[1].startswith(fa) and rows[2].startswith(fb)
+                      and len(rows[2]) == width)
+                if not ok:
+                    return Problem("two-sections|exact-width-frame|screen", "after %r (terminal %d columns) the screen shows %r; expected "
+                                   "HEADER, the upper bar at %d and the lower bar at %d in a frame of %d columns"
+                                   % ("".join(seq), width, rows, a.get_progress(), b.get_progress(), width))
+        except Exception as e:
+            return Problem("two-sections|raises", "%r raised %r" % ("".join(seq), e))
+    finally:
+        if old is None:
+            os.environ.pop("COLUMNS", None)
+        else:
+            os.environ["COLUMNS"] = old
+    return None
+
 
 def run_multiline_plain(seq, clock):
     """two-line frames on an output without ANSI support: frames are appended, never a control code"""
@@ -594,7 +653,9 @@ def run_multiline(seq, clock, section=False):
 def replay_bounded(check_id, failure):
     w = failure.get("witness") or {}
     with _Env() as clock:
-        if w.get("multiline") and w.get("plain"):
+        if w.get("two_sections"):
+            prob = run_two_sections(w["seq"], clock)
+        elif w.get("multiline") and w.get("plain"):
             prob = run_multiline_plain(w["seq"], clock)
         elif w.get("multiline"):
             prob = run_multiline(w["seq"], clock, section=bool(w.get("section")))
